@@ -22,6 +22,7 @@ EXPLANATION = (
     "repeated -> list-making converter, message-typed -> converter with dict and message branches for the classes the "
     "property names); shape of APIIntEnum.convert/convert_list, from_pb, __post_init__, from_dict and the float-fix guard. "
     "Decides the table clauses of the property; numeric rounding and value round-trips for all inputs are not decided."
+    ' Added: the float conversion is not memoised; model conversions never choose between dictionary entries by truthiness.'
 )
 ASSUMPTIONS = [
     "api.proto text equals the compiled descriptor (decided by C13.R2)",
